@@ -53,6 +53,7 @@ def shards(tier):
     out.append(("declare",))
     for part in range(8):
         out.append(("derived", tier, part, 8))
+    out.append(("limits",))
     return out
 
 
@@ -256,6 +257,43 @@ def run_shard(shard):
         res["evaluations"] += n
         sample(res, {"declarations": n, "access_types": [t.name for t in types]})
         return res
+    if k == "limits":
+        # range limits of user-declared numeric values, zero and negative limits included: "range limits produce Invalid"
+        import itertools
+        from dali.memory.location import MemoryBank, MemoryLocation, MemoryType, NumericValue, FlagValue
+        n = 0
+        for width, signed in ((1, False), (1, True), (2, True), (2, False)):
+            lims = [None, 0, 1, 100, -50, -1, 0xFD] if width == 1 else [None, 0, -1, 1000, -300]
+            for lo, hi in itertools.product(lims, repeat=2):
+                if lo is not None and hi is not None and lo > hi:
+                    continue
+                if not signed and ((lo is not None and lo < 0) or (hi is not None and hi < 0)):
+                    continue
+                bank = MemoryBank(60, 0x40)
+                locs = tuple(MemoryLocation(0x10 + i, type_=MemoryType.ROM) for i in range(width))
+                cls = type("Limited", (NumericValue,), {"bank": bank, "locations": locs, "signed": signed, "min_value": lo, "max_value": hi})
+                raws = range(256) if width == 1 else sorted(set(list(range(0, 65536, 257)) + [0, 1, 2, 0x7FFE, 0x7FFF, 0x8000, 0x8001, 0xFED4, 0xFFFE, 0xFFFF, 1000, 1001, 999]))
+                for rv in raws:
+                    raw = rv.to_bytes(width, "big")
+                    num = int.from_bytes(raw, "big", signed=signed)
+                    want = "Invalid" if (lo is not None and num < lo) or (hi is not None and num > hi) else num
+                    lst = [None] * 255
+                    for i, b in enumerate(raw):
+                        lst[0x10 + i] = b
+                    n += 1
+                    try:
+                        got = cls.from_list(lst)
+                    except Exception as e:
+                        got = "EXC:" + repr(e)
+                    gotn = got.name if isinstance(got, FlagValue) else got
+                    if gotn != want or (want != "Invalid" and type(got) is not int):
+                        add_violation(res, "C11:limits", f"user numeric value (width {width}, signed={signed}, min_value={lo}, max_value={hi}) raw {raw.hex()}: "
+                                      f"{got!r}, the limits say {want!r}", {"t": "limits"})
+                        break
+                res["distinct"].add(("limits", width, signed, lo is None, hi is None))
+        res["evaluations"] += n
+        sample(res, {"limit_decodes": n})
+        return res
     if k == "derived":
         # values an application derives from the library's declared ones for a vendor bank (same encoding and limits) with the
         # MASK / TMASK conventions switched off: "recognised ... when the value supports them" - and only then
@@ -415,6 +453,8 @@ def replay(case):
         return run_shard(("layout",))["violations"]
     if t == "declare":
         return run_shard(("declare",))["violations"]
+    if t == "limits":
+        return run_shard(("limits",))["violations"]
     if t == "derived":
         return [v for p in range(8) for v in run_shard(("derived", "quick", p, 8))["violations"] if v["case"] == case]
     return run_shard(("inverse", "quick"))["violations"]
